@@ -183,9 +183,9 @@ OBLIGATIONS = []
 for e in all_entries():
     if e.has("real") or e.has("corpus"):
         continue
-    OBLIGATIONS.append(entry_obl("sched_cat", sched_cat, e, narrow=True, budget=300, thorough_budget=600,
+    OBLIGATIONS.append(entry_obl("sched_cat", sched_cat, e, narrow=True, budget=300, thorough_budget=400,
                                  extra={"codec": I(0, 2), "defMode": B, "twice": B, "kind": C(1), "eof_with_last": B, "cut1": I(0, 40), "cut2": C(-1)},
-                                 extra_thorough={"cut2": I(-1, 40)},
+                                 extra_thorough={"cut2": I(-1, 40)} if e.id in CAT_QUICK else {},  # a second cut for the small entries only
                                  extra_shards=[{"codec": C(c_), "twice": C(t_)} for c_ in range(3) for t_ in (False, True)],
                                  tiers=("quick", "thorough") if e.id in CAT_QUICK else ("thorough",),
                                  doc="catalogue value (symbolic slots) x codec x mode, once/twice, arriving in two chunks (cut symbolic), seekable and non-seekable double"))
